@@ -648,6 +648,10 @@ def reindex_axis(self, values, axis=0, fill_value=np.nan, raise_error=False, met
 
     # indices = ax.loc(values, mode='clip', side=method)
     indices = locate_many(ax.values, values, side=method or 'left')
+    if method == 'right':
+        # searchsorted's side='right' points past an exact match: labels that exist keep their own data
+        exact = locate_many(ax.values, values, side='left')
+        indices = np.where(ax.values.take(exact) == values, exact, indices)
     newobj = self.take_axis(indices, axis, indexing='position')
 
     # Replace mismatch with missing values?
